@@ -85,6 +85,13 @@ def run(tier: str) -> int:
                 (gen / rel).write_bytes(text)
             else:
                 (gen / rel).write_text(text)
+        # one file under several names: symbolic links next to their target (one sorts before it, one behind it) and in another
+        # directory - which names are reported must not depend on the order in which the walk lists them
+        (gen / "lnk" / "far").mkdir(parents=True, exist_ok=True)
+        (gen / "lnk" / "geometry.py").write_text("def area(a, b):\n    return a * b\n\n\ndef perimeter(a, b):\n    return 2 * (a + b)\n")
+        os.symlink("geometry.py", gen / "lnk" / "a_alias.py")
+        os.symlink("geometry.py", gen / "lnk" / "shapes.py")
+        os.symlink("../geometry.py", gen / "lnk" / "far" / "geo.py")
         corpus_copy = top / "corpus"
         shutil.copytree(CORPUS, corpus_copy)
         trees = [("generated", str(gen)), ("corpus", str(corpus_copy))]
